@@ -648,5 +648,14 @@ class Builtin:
         self.fn = BUILTINS.get(name)
         self.type = TYPE_OF_BUILTIN.get(name)
 
+    def __eq__(self, other):
+        return isinstance(other, Builtin) and other.name == self.name
+
+    def __ne__(self, other):
+        return not self.__eq__(other)
+
+    def __hash__(self):
+        return hash(('Builtin', self.name))
+
     def __repr__(self):
         return 'Builtin(%s)' % self.name
